@@ -1098,6 +1098,14 @@ CHECKS['C20']['text'] = CHECKS['C20']['text'].replace('PROVED LAWS (28)', 'PROVE
     'conversions that both raise or compare equal again, and astype never changes the partition). Not proved: the same for nested '
     'product spaces (Space.astype), which stays correspondence plus history oracle only.')
 
+_count('C04', 18)
+CHECKS['C04']['text'] += (
+    ' FINAL ROUND: unconditionally - leaf hypotheses discharged by zoo_leaves_ok - for every expression over the executable leaf zoo '
+    '(Scaling, Identity, Power, ShiftPower, Matrix of any shape, Constant, Zero; all sizes, exponents and entries) the built object '
+    'evaluates to the table value, and a set is_linear flag means linear (build_sound_zoo, linear_flag_sound_zoo). Every built '
+    'object, for every expression, is in merged scalar normal form (build_merged), checked against the real class tree on every '
+    'case. The driver\'s inner / linf / l2sq / repart / impart / scalef / powf leaf maps remain executed without theorem.')
+
 NOT_YET = {}
 
 
